@@ -560,9 +560,92 @@ def loop_witnesses(body, header, blocks):
                     at = body.origins(ta["op"], transparent=lambda tt: True)
                     if any(x[0] == "op" and x[1] == s for x in at):
                         dep = True
-            out.append(("counter", mir.Site(body, bb, None), dep, "strictly increasing counter _%d feeds the exit test (fresh candidate on every iteration)" % l
-                        if dep else "counter does not influence the loop's exit test"))
+            why_c = "strictly increasing counter _%d feeds the exit test (fresh candidate on every iteration)" % l if dep else "counter does not influence the loop's exit test"
+            if dep:
+                lossy = _lossy_between(body, l, blocks)
+                if lossy:
+                    dep = False
+                    why_c = "the counter reaches the exit test only through `%s`: distinct counter values may give the same tested value, so the loop need not end" % lossy
+            out.append(("counter", mir.Site(body, bb, None), dep, why_c))
     return out
+
+
+INJECTIVE_CALLS = ("std::fmt::format", "std::fmt::Arguments::new", "core::fmt::rt::Argument::new_display", "core::fmt::rt::Argument::new_debug",
+                   "std::hint::must_use", "std::string::String::push_str", "std::ops::Add::add")
+
+
+def _lossy_between(body, counter, blocks):
+    """name of a call through which the counter must pass on its way to a loop-exit test and which is not known to keep
+    distinct counter values distinct (formatting an integer into a string does; truncating, trimming, case folding,
+    taking a prefix do not); None if every exit test sees the counter through injective steps only"""
+    from ..mir import VALUE_PRESERVING
+
+    def walk(t, seen, depth=0):
+        """-> (reaches the counter, first non-injective call on such a path or None)"""
+        if depth > 25:
+            return False, None
+        if t[0] == "local":
+            if t[1] == counter:
+                return True, None
+            if t[1] in seen:
+                return False, None
+            alts = mir._alternatives(body, t[1], 0, True, frozenset()) or []
+            hit, bad = False, None
+            for a in alts:
+                h, b_ = walk(a, seen | {t[1]}, depth + 1)
+                if h:
+                    hit = True
+                    bad = bad or b_
+            return hit, bad
+        if t[0] in ("ref", "discr", "cast", "unop"):
+            return walk(t[1] if t[0] != "unop" else t[2], seen, depth + 1)
+        if t[0] == "proj":
+            return walk(t[1], seen, depth + 1)
+        if t[0] == "binop":
+            h1, b1 = walk(t[2], seen, depth + 1)
+            h2, b2 = walk(t[3], seen, depth + 1)
+            return h1 or h2, b1 or b2
+        if t[0] == "agg":
+            hit, bad = False, None
+            for v in t[3].values():
+                h, b_ = walk(v, seen, depth + 1)
+                if h:
+                    hit, bad = True, bad or b_
+            return hit, bad
+        if t[0] == "call":
+            hit, bad = False, None
+            for a in t[2]:
+                h, b_ = walk(a, seen, depth + 1)
+                if h:
+                    hit, bad = True, bad or b_
+            if hit and bad is None and t[1] not in VALUE_PRESERVING and t[1] not in INJECTIVE_CALLS and not t[1].startswith("core::fmt::rt::") and \
+                    not t[1].endswith(("::contains", "::contains_key", "::eq", "::ne", "::lt", "::le", "::gt", "::ge", "::is_some", "::is_none", "::get")):
+                bad = t[1]
+            return hit, bad
+        return False, None
+    worst = None
+    for a in blocks:
+        ta = body.blocks[a]["term"]
+        if ta["k"] != "switch" or all(b in blocks for b in body.succs(a)):
+            continue
+        root = strip(term_of(body, ta["op"]))
+        while root[0] == "unop" and root[1] == "Not":
+            root = strip(root[2])
+        if root[0] == "call":
+            # the outermost call is the test itself (membership in the finite list, whatever it is called); what matters
+            # is how its arguments are derived from the counter
+            hit, bad = False, None
+            for a in root[2]:
+                h, b_ = walk(a, frozenset())
+                if h:
+                    hit, bad = True, bad or b_
+        else:
+            hit, bad = walk(root, frozenset())
+        if hit and bad:
+            worst = bad
+        elif hit:
+            return None     # some exit test sees the counter injectively
+    return worst
 
 
 def _def_block_of_tuple(body, assert_term):
